@@ -742,7 +742,10 @@ class ArgSpecCache:
                 if evaluator_sig is not None:
                     return evaluator_sig
 
-        if hasattr_static(obj, "fn") or hasattr_static(obj, "original_fn"):
+        # On a class, "fn" is a method or a field of its instances, not a wrapped function
+        if not safe_isinstance(obj, type) and (
+            hasattr_static(obj, "fn") or hasattr_static(obj, "original_fn")
+        ):
             is_asynq = is_asynq or hasattr_static(obj, "asynq")
             # many decorators put the original function in the .fn attribute
             try:
@@ -752,9 +755,11 @@ class ArgSpecCache:
                 # e.g. certain extension classes
                 pass
             else:
-                return self._cached_get_argspec(
-                    original_fn, impl, is_asynq, in_overload_resolution
-                )
+                # a str would be taken for the fully qualified name of a stub
+                if not isinstance(original_fn, str):
+                    return self._cached_get_argspec(
+                        original_fn, impl, is_asynq, in_overload_resolution
+                    )
 
         # Special case for EnumMeta.__call__. Ideally this should be generalized.
         if (
